@@ -14,7 +14,8 @@
   * `Diff.flatten` — `LeftNode()` / `RightNode()` **after the repair** "flatten onto a kind-preserving
     copy": a new node with the header of the favoured side and the flattened diff children.
   * `Diff.sort` — `Sort`: Go's `sort.SliceStable` is an insertion sort for at most 20 elements
-    (`sliceStable`, modelled literally so that a non-transitive `isLessThan` gives the same answer);
+    (`sliceStable`, modelled literally so that a non-transitive `isLessThan` gives the same answer)
+    and some stable sort beyond; `Diff.sortExact` says whether the model is exact on a diff;
     the keys are those of `isLessThan`: `sortValue` of the tag (`Generated.Diff.sortKey2`), then
     `Years()` when both flattened nodes are `Yearer`s, then the value.
   * `DiffWorld`, `DiffOp`, `diffStep`, `diffRun` — a diff together with the two compared trees *as they are now*;
@@ -22,8 +23,9 @@
     `Generated.Diff.flattenMutates` and `lessThanFlattens` (`sortWrites`), so the model of the
     unrepaired code does modify them.
 
-  Restrictions (the correspondence generator stays inside them, see harness/c08.go): `sort` is
-  exact for at most 20 children per entry; `Years()` is an exact fraction here and a float64 in Go.
+  Restrictions: for more than 20 children per entry `sort` is exact when `isLessThan` is a strict
+  weak order on them (`Diff.sortExact`; the correspondence sets other cases aside as inconclusive);
+  `Years()` is an exact fraction here and a float64 in Go.
 -/
 import Gedcom.Model.Ident
 import Gedcom.Model.Calendar
@@ -221,11 +223,25 @@ def goStrLt : Str → Str → Bool
   | _ :: _, [] => false
   | a :: as, b :: bs => if a < b then true else if b < a then false else goStrLt as bs
 
-/-- `isLessThan` on the two flattened nodes -/
-def lessNode (a b : Node) : Bool :=
-  if sortKeyOfTag a.tag != sortKeyOfTag b.tag then decide (sortKeyOfTag a.tag < sortKeyOfTag b.tag)
-  else if isYearer a && isYearer b then (diffNodeYears a).lt (diffNodeYears b)
+/-- what `isLessThan` reads of a flattened node: the `sortValue` level of its tag, whether its Go
+    type is a `Yearer`, its `Years()` and its value -/
+structure SortKey where
+  level : Nat
+  yearer : Bool
+  years : YearsQ
+  value : Str
+
+def sortKeyOf (n : Node) : SortKey :=
+  ⟨sortKeyOfTag n.tag, isYearer n, if isYearer n then diffNodeYears n else YearsQ.zero, n.value⟩
+
+/-- `isLessThan` on the keys of the two flattened nodes -/
+def lessKey (a b : SortKey) : Bool :=
+  if a.level != b.level then decide (a.level < b.level)
+  else if a.yearer && b.yearer then a.years.lt b.years
   else goStrLt a.value b.value
+
+/-- `isLessThan` on the two flattened nodes -/
+def lessNode (a b : Node) : Bool := lessKey (sortKeyOf a) (sortKeyOf b)
 
 /-! ### Sort -/
 
@@ -234,18 +250,42 @@ def sliceStableIns {α : Type} (lt : α → α → Bool) (x : α) : List α → 
   | [] => [x]
   | e :: es => if lt x e then e :: sliceStableIns lt x es else x :: e :: es
 
-/-- `sort.SliceStable` for at most 20 elements: insertion sort from the left -/
+/-- `sort.SliceStable`: insertion sort from the left.  This *is* Go's algorithm for at most 20
+    elements (`stable_func`: blocks of 20 are insertion-sorted, then merged with `symMerge`); for
+    longer slices it is the same function whenever `lt` is a strict weak order on the elements,
+    because then every stable sort returns the one stable sorted permutation
+    (`C08.sliceStable_unique`). -/
 def sliceStable {α : Type} (lt : α → α → Bool) (l : List α) : List α :=
   (l.foldl (fun acc x => sliceStableIns lt x acc) []).reverse
+
+/-- `lt` is a strict weak order on the elements of `l`: irreflexive, transitive, and incomparability
+    is transitive (stated as: `lt a c` implies `lt a b` or `lt b c`) -/
+def swoB {α : Type} (lt : α → α → Bool) (l : List α) : Bool :=
+  l.all fun a => !lt a a && l.all fun b => l.all fun c =>
+    (!(lt a b && lt b c) || lt a c) && (!lt a c || lt a b || lt b c)
 
 mutual
 /-- `Sort()`: the children are ordered by `isLessThan` on their flattened nodes as they are before
     the recursive calls, then every child is sorted -/
 def Diff.sort : Diff → Diff
-  | .mk L R cs => .mk L R ((sliceStable (fun a b => lessNode a.1 b.1) (Diff.sortKeyed cs)).map (·.2))
-def Diff.sortKeyed : List Diff → List (Node × Diff)
+  | .mk L R cs => .mk L R ((sliceStable (fun a b => lessKey a.1 b.1) (Diff.sortKeyed cs)).map (·.2))
+def Diff.sortKeyed : List Diff → List (SortKey × Diff)
   | [] => []
-  | c :: cs => (c.flatten true, c.sort) :: Diff.sortKeyed cs
+  | c :: cs => (sortKeyOf (c.flatten true), c.sort) :: Diff.sortKeyed cs
+end
+
+mutual
+/-- is the model of `Sort()` exact on this diff?  Every list of more than 20 children (where Go
+    leaves plain insertion sort) must be compared by a strict weak order. -/
+def Diff.sortExact : Diff → Bool
+  | .mk _ _ cs =>
+    (decide (cs.length ≤ 20) || swoB lessKey (Diff.flatKeys cs)) && Diff.sortExactL cs
+def Diff.sortExactL : List Diff → Bool
+  | [] => true
+  | c :: cs => c.sortExact && Diff.sortExactL cs
+def Diff.flatKeys : List Diff → List SortKey
+  | [] => []
+  | c :: cs => sortKeyOf (c.flatten true) :: Diff.flatKeys cs
 end
 
 /-! ### operations on a diff and what they do to the compared trees -/
@@ -316,6 +356,21 @@ end
 
 def applyWrites (ws : List (Nat × Node)) (n : INode) : INode :=
   ws.foldl (fun n w => n.addKid w.1 w.2) n
+
+/-! ### the guard of "deep-equal inputs give an all-two-sided diff", executable -/
+
+/-- `eq` is reflexive, symmetric and transitive on the list -/
+def equivOnB (eq : INode → INode → Bool) (S : List INode) : Bool :=
+  S.all fun a => eq a a && S.all fun b => !eq a b || (eq b a && S.all fun c => !eq b c || eq a c)
+
+/-- `eq` is an equivalence on `S`, on the children of `S`, on their children, … (`n` = fuel; the
+    number of nodes below `S` plus one suffices) -/
+def guardB (eq : INode → INode → Bool) : Nat → List INode → Bool
+  | 0, S => S.isEmpty
+  | n + 1, S => S.isEmpty || (equivOnB eq S && guardB eq n (S.flatMap INode.kids))
+
+/-- `Equals` is an equivalence on every level below the two compared roots -/
+def equivLevelsB (l r : INode) : Bool := guardB iequals (l.size + r.size) (l.kids ++ r.kids)
 
 /-- the two compared trees as they are now, and the diff -/
 structure DiffWorld where
